@@ -633,6 +633,10 @@ impl C01 {
                 let mut w: Vec<u8> = vec![];
                 lib_call("write_varint", || w.write_varint(*n))?.map_err(|e| failure("write_varint", e.to_string(), "Ok"))?;
                 ensure_eq_hex!(w, want, "write_varint");
+                // the same writer on a cursor (the trait is implemented for both)
+                let mut wc = std::io::Cursor::new(Vec::<u8>::new());
+                lib_call("write_varint(cursor)", || wc.write_varint(*n))?.map_err(|e| failure("write_varint_cursor", e.to_string(), "Ok"))?;
+                ensure_eq_hex!(wc.into_inner(), want, "write_varint_cursor");
                 let mut cur = std::io::Cursor::new(want.clone());
                 let back = lib_call("read_varint", || cur.read_varint())?.map_err(|e| failure("read_varint", e.to_string(), "Ok"))?;
                 ensure_eq!(back, *n, "read_varint");
